@@ -76,6 +76,9 @@ def opReader : List String → Option String
         | none, none, [] => ""
       some (";".intercalate outs ++ s!" live={led.live}" ++ f)
     | _, _, _ => none
+  | ["danger", hex] => do
+      let t ← parseHex hex
+      some (if Reader.isDangerous { symlinkTarget := some (cstr t.toList) } then "1" else "0")
   | _ => none
 
 end LhasaV.Driver
